@@ -113,7 +113,7 @@ impl Runner {
                     match runner.do_spawn(num_spawned, iter.has_more()) {
                         false => break 'lag_period,
                         true => {
-                            s.spawn(move || thread_task(chunk));
+                            s.spawn(move || stop_on_panic(|| iter.skip_to_end(), || thread_task(chunk)));
                             num_spawned += 1;
                         }
                     }
@@ -126,7 +126,7 @@ impl Runner {
                 }
             }
 
-            s.spawn(move || thread_task(chunk));
+            s.spawn(move || stop_on_panic(|| iter.skip_to_end(), || thread_task(chunk)));
             num_spawned += 1;
         });
 
@@ -162,7 +162,7 @@ impl Runner {
                     match runner.do_spawn(num_spawned, iter.has_more()) {
                         false => break 'lag_period,
                         true => {
-                            handles.push(s.spawn(move || thread_task(chunk)));
+                            handles.push(s.spawn(move || stop_on_panic(|| iter.skip_to_end(), || thread_task(chunk))));
                             num_spawned += 1;
                         }
                     }
@@ -175,7 +175,7 @@ impl Runner {
                 }
             }
 
-            handles.push(s.spawn(move || thread_task(chunk)));
+            handles.push(s.spawn(move || stop_on_panic(|| iter.skip_to_end(), || thread_task(chunk))));
             num_spawned += 1;
 
             let mut vec = vec![];
@@ -215,7 +215,7 @@ impl Runner {
                 for _ in 0..LAG_PERIODICITY {
                     match runner.do_spawn(threads.len(), iter.has_more()) {
                         false => break 'lag_period,
-                        true => threads.push(s.spawn(move || thread_task(chunk))),
+                        true => threads.push(s.spawn(move || stop_on_panic(|| iter.skip_to_end(), || thread_task(chunk)))),
                     }
                 }
 
@@ -226,7 +226,7 @@ impl Runner {
                 }
             }
 
-            threads.push(s.spawn(move || thread_task(chunk)));
+            threads.push(s.spawn(move || stop_on_panic(|| iter.skip_to_end(), || thread_task(chunk))));
 
             let num_threads = threads.len();
             let result = threads
@@ -254,6 +254,22 @@ impl Runner {
         let exact = matches!(self.chunk_size, ResolvedChunkSize::Exact(_));
         (self.max_num_threads, exact, self.chunk_size.inner())
     }
+}
+
+/// Runs the task of a worker; if it unwinds, `stop` keeps the other workers from pulling further
+/// elements: the call is bound to panic, and on an unbounded source they would never finish.
+fn stop_on_panic<T>(stop: impl Fn(), task: impl FnOnce() -> T) -> T {
+    struct StopOnPanic<S: Fn()>(S);
+    impl<S: Fn()> Drop for StopOnPanic<S> {
+        fn drop(&mut self) {
+            if std::thread::panicking() {
+                (self.0)();
+            }
+        }
+    }
+
+    let _stop = StopOnPanic(stop);
+    task()
 }
 
 fn lag() {
